@@ -9,7 +9,7 @@ package main
 // error), children are added from inside the action of a given rule with
 // NewChildMonitor + AddEvent under the action's monitor.
 //
-//	payload : W<workers>,F<failOnFirstError 0|1>,S<schedule seed>,D<directed 0|1> <casc> <casc> …
+//	payload : W<workers>,F<failOnFirstError 0|1>,S<schedule seed>,D<schedule mode 0..5>,M<through ECAL 0|1> <casc> <casc> …
 //	casc    : <w|a>=<node>/<node>/…        w = AddEventAndWait, a = AddEvent + finish handler
 //	node    : <parent|->.<parent rule|->.<t|s|z>.<rules|->      (node 0 is the root)
 //	result  : <casc result> ; … [ ~ <trace> ; …]
@@ -27,7 +27,6 @@ package main
 // transition system.
 
 import (
-	"errors"
 	"fmt"
 	"os"
 	"runtime"
@@ -36,21 +35,24 @@ import (
 	"strings"
 	"sync"
 	"sync/atomic"
+	"syscall"
 	"time"
 
-	"github.com/krotik/ecal/config"
 	"github.com/krotik/ecal/engine"
-	"github.com/krotik/ecal/interpreter"
-	"github.com/krotik/ecal/parser"
 	"github.com/krotik/ecal/stdlib"
 	"github.com/krotik/ecal/verifhook"
 )
 
 type c02Node struct {
 	parent, prule int
-	kind          byte
-	rules         string
-	children      map[int][]int
+	kind          byte   // t triggering, s skipped (no rule for the kind), z triggering without a matching rule
+	rules         string // o ok, x error, O/X the same after blocking for a while, r (ECAL) sink ends in `return`
+	link          byte   // how the event is added: c child monitor of the adding action's monitor;
+	// n new root monitor + AddEventAndWait inside the action (nested wait); d new root monitor /
+	// nil monitor / ECAL scope argument, not waited for; l (ECAL) addEvent inside a for loop of the
+	// sink; u (ECAL) addEvent inside a user function called by the sink
+	children map[int][]int
+	unit     int // the (sub-)cascade the node belongs to
 }
 
 type c02Casc struct {
@@ -58,13 +60,25 @@ type c02Casc struct {
 	nodes []c02Node
 }
 
+// c02Unit is one root monitor's cascade: the outer cascade of a plan, or a nested / detached one
+// started by an action.
+type c02Unit struct {
+	ci, root int
+	mode     byte // w AddEventAndWait, a AddEvent + finish handler, n nested wait, d detached
+	via      byte
+}
+
 type c02Plan struct {
 	workers   int
 	failFirst bool
 	seed      uint64
-	directed  bool
+	sched     int // schedule mode, see c02Hook
 	ecal      bool
+	noHandler bool // H0: no finish handler is set (w mode)
+	noErrObs  bool // E0: no root monitor error observer
+	prios     bool // P1: child monitors get different priorities
 	cascs     []c02Casc
+	units     []c02Unit
 }
 
 func c02Parse(p string) *c02Plan {
@@ -80,16 +94,22 @@ func c02Parse(p string) *c02Plan {
 		case 'S':
 			pl.seed = v
 		case 'D':
-			pl.directed = v == 1
+			pl.sched = int(v)
 		case 'M':
 			pl.ecal = v == 1
+		case 'H':
+			pl.noHandler = v == 0
+		case 'E':
+			pl.noErrObs = v == 0
+		case 'P':
+			pl.prios = v == 1
 		}
 	}
-	for _, cs := range f[1:] {
+	for ci, cs := range f[1:] {
 		c := c02Casc{mode: cs[0]}
 		for _, ns := range strings.Split(cs[2:], "/") {
 			x := strings.Split(ns, ".")
-			n := c02Node{parent: -1, prule: -1, kind: x[2][0], children: map[int][]int{}}
+			n := c02Node{parent: -1, prule: -1, kind: x[2][0], link: 'c', children: map[int][]int{}}
 			if x[0] != "-" {
 				n.parent, _ = strconv.Atoi(x[0])
 				n.prule, _ = strconv.Atoi(x[1])
@@ -97,10 +117,28 @@ func c02Parse(p string) *c02Plan {
 			if x[3] != "-" {
 				n.rules = x[3]
 			}
+			if len(x) > 4 {
+				n.link = x[4][0]
+			}
+			ni := len(c.nodes)
+			switch {
+			case n.parent < 0:
+				n.unit = len(pl.units)
+				pl.units = append(pl.units, c02Unit{ci: ci, root: 0, mode: c.mode})
+			case n.link != 'c':
+				n.unit = len(pl.units)
+				m := byte('d')
+				if n.link == 'n' {
+					m = 'n'
+				}
+				pl.units = append(pl.units, c02Unit{ci: ci, root: ni, mode: m, via: n.link})
+			default:
+				n.unit = c.nodes[n.parent].unit
+			}
 			c.nodes = append(c.nodes, n)
 			if n.parent >= 0 {
 				pn := &c.nodes[n.parent]
-				pn.children[n.prule] = append(pn.children[n.prule], len(c.nodes)-1)
+				pn.children[n.prule] = append(pn.children[n.prule], ni)
 			}
 		}
 		pl.cascs = append(pl.cascs, c)
@@ -115,24 +153,43 @@ func (c *c02Casc) String() string {
 		if r == "" {
 			r = "-"
 		}
+		l := ""
+		if n.link != 'c' && n.link != 0 {
+			l = "." + string(n.link)
+		}
 		if n.parent < 0 {
 			ns = append(ns, fmt.Sprintf("-.-.%c.%s", n.kind, r))
 		} else {
-			ns = append(ns, fmt.Sprintf("%d.%d.%c.%s", n.parent, n.prule, n.kind, r))
+			ns = append(ns, fmt.Sprintf("%d.%d.%c.%s%s", n.parent, n.prule, n.kind, r, l))
 		}
 	}
 	return string(c.mode) + "=" + strings.Join(ns, "/")
 }
 
 // c02GenCasc draws a cascade shape: fan-out <= 4, depth <= 4, at most maxNodes nodes.
-func c02GenCasc(r *Rand, maxNodes int, pFail int) c02Casc {
+// rich: also nested waits, detached events, blocking actions (and, through ECAL, addEvent inside a
+// loop / a user function, sinks ending in return); nested: how many nested waits may still be drawn.
+func c02GenCasc(r *Rand, maxNodes int, pFail int, rich bool, ecal bool, nested *int) c02Casc {
 	c := c02Casc{mode: 'w'}
 	if r.Intn(4) == 0 {
 		c.mode = 'a'
 	}
 	type item struct{ idx, depth int }
 	mk := func(parent, prule, depth int) c02Node {
-		n := c02Node{parent: parent, prule: prule, kind: 't', children: map[int][]int{}}
+		n := c02Node{parent: parent, prule: prule, kind: 't', link: 'c', children: map[int][]int{}}
+		if rich && parent >= 0 {
+			switch x := r.Intn(100); {
+			case x < 7 && *nested > 0:
+				n.link = 'n'
+				*nested--
+			case x < 15:
+				n.link = 'd'
+			case x < 20 && ecal:
+				n.link = 'l'
+			case x < 25 && ecal:
+				n.link = 'u'
+			}
+		}
 		switch x := r.Intn(20); {
 		case x < 3:
 			n.kind = 's'
@@ -145,11 +202,17 @@ func c02GenCasc(r *Rand, maxNodes int, pFail int) c02Casc {
 		if n.kind == 't' {
 			k := 1 + r.Intn(3)
 			for i := 0; i < k; i++ {
+				ch := "o"
 				if r.Intn(100) < pFail {
-					n.rules += "x"
-				} else {
-					n.rules += "o"
+					ch = "x"
+					if rich && ecal && r.Intn(8) == 0 {
+						ch = "r"
+					}
 				}
+				if rich && ch != "r" && r.Intn(7) == 0 {
+					ch = strings.ToUpper(ch)
+				}
+				n.rules += ch
 			}
 		}
 		return n
@@ -176,6 +239,49 @@ func c02GenCasc(r *Rand, maxNodes int, pFail int) c02Casc {
 	return c
 }
 
+// c02TinyPlans enumerates "W<w>,F<f> <casc>" for all cascades with <= 3 events (rule lists o, x, ox,
+// xo; skipped and zero-rule events), workers 1..2, failOnFirstError on/off, both wait modes.
+func c02TinyPlans() []string {
+	kinds := []string{"t.o", "t.x", "t.ox", "t.xo", "s.-", "z.-"}
+	nrules := func(k string) int {
+		if k[0] != 't' {
+			return 0
+		}
+		return len(k) - 2
+	}
+	var shapes []string
+	for _, k0 := range kinds {
+		shapes = append(shapes, "-.-."+k0)
+		for r1 := 0; r1 < nrules(k0); r1++ {
+			for _, k1 := range kinds {
+				two := fmt.Sprintf("-.-.%s/0.%d.%s", k0, r1, k1)
+				shapes = append(shapes, two)
+				for par, pk := range []string{k0, k1} {
+					for r2 := 0; r2 < nrules(pk); r2++ {
+						if par == 0 && r2 < r1 {
+							continue // children of the root are listed in rule order
+						}
+						for _, k2 := range kinds {
+							shapes = append(shapes, fmt.Sprintf("%s/%d.%d.%s", two, par, r2, k2))
+						}
+					}
+				}
+			}
+		}
+	}
+	var out []string
+	for _, sh := range shapes {
+		for _, w := range []int{1, 2} {
+			for _, f := range []int{0, 1} {
+				for _, m := range []string{"w", "a"} {
+					out = append(out, fmt.Sprintf("W%d,F%d %s=%s", w, f, m, sh))
+				}
+			}
+		}
+	}
+	return out
+}
+
 // ---------------------------------------------------------------- run state, hook handler
 
 type c02State struct {
@@ -188,6 +294,7 @@ type c02State struct {
 	nextID  map[int]int            // cascade -> next monitor id
 	goIdx   map[uint64]int         // goroutine id -> worker index
 	trace   map[int][]string       // cascade -> tokens
+	gtrace  []string               // all tokens in global order, <cascade>:<token>
 	hooks   int                    // hook events seen
 	parked  bool                   // a task is parked between SetErrors and Finish
 	obsDone int                    // completed AllErrors calls of the error observer
@@ -196,6 +303,16 @@ type c02State struct {
 	stamps  map[int]map[string]int64
 	unknown int
 	goCasc  map[uint64]int // goroutine evaluating addEventAndWait(...) -> cascade (ECAL mode)
+	posted  map[uint64]int // root -> cascade.post events seen
+	obsRun  map[uint64]int // root -> callbacks run
+	holds   map[uint64]int // root -> lock holds done
+	prio    map[uint64]int // PCT: goroutine -> priority
+	change  []int          // PCT: priority change points (hook event numbers)
+	step    int
+	low     int
+	cmu     sync.Mutex
+	counts  map[string]int
+	expect  map[uint64]int // goroutine -> unit whose root monitor the goroutine is about to create
 }
 
 var c02Cur atomic.Pointer[c02State]
@@ -220,6 +337,7 @@ func (st *c02State) rec(root uint64, tok string) {
 		return
 	}
 	st.trace[ci] = append(st.trace[ci], tok)
+	st.gtrace = append(st.gtrace, strconv.Itoa(ci)+":"+tok)
 }
 
 func (st *c02State) id(mon uint64) int {
@@ -245,9 +363,69 @@ func c02EventNode(e interface{}) int {
 	return v
 }
 
+// schedule modes (header field D): 0 random yields/sleeps at the hook points; 1 + hold a failing
+// task between SetErrors and Finish until another task's error observer has called AllErrors;
+// 2 + hold the adder after pool.AddTask of the root event until the cascade has posted; 3 + hold a
+// finisher INSIDE the root's critical section when one more monitor is outstanding (the last
+// finisher queues on the lock for > 1 ms, the mutex goes into starvation mode and Unlock hands the
+// processor to it: the last finisher runs before the first one continues after its Unlock), hold the
+// goroutine that saw zero before PostEvent, hold a non-last finisher right after Unlock; 4 PCT: a
+// random priority per goroutine, lower priorities are slowed down at every hook point, three
+// priority change points; 5 = 1+2+3.
+// count adds to a per-case counter (hook goroutines run concurrently: not CountRun directly)
+func (st *c02State) count(key string) {
+	st.cmu.Lock()
+	st.counts[key]++
+	st.cmu.Unlock()
+}
+
+// flush hands the per-case counters to the run statistics (case goroutine only)
+func (st *c02State) flush() {
+	st.cmu.Lock()
+	defer st.cmu.Unlock()
+	for k, v := range st.counts {
+		for i := 0; i < v; i++ {
+			CountRun(k)
+		}
+	}
+	st.counts = map[string]int{}
+}
+
+func (st *c02State) has(mode int) bool {
+	d := st.plan.sched
+	return d == mode || (d == 5 && mode >= 1 && mode <= 3)
+}
+
 func c02Hook(point string, args ...interface{}) {
 	st := c02Cur.Load()
-	if st == nil || !strings.HasPrefix(point, "cascade.") {
+	if st == nil {
+		return
+	}
+	if point == "pool.add.done" && st.has(2) {
+		// pool.AddTask is over. If this is the goroutine that adds a cascade's root event, hold it
+		// until that cascade has posted its finished message (and the callbacks ran)
+		gid := c02Goid()
+		st.mu.Lock()
+		ci, ok := st.goCasc[gid]
+		st.mu.Unlock()
+		if !ok {
+			return
+		}
+		dl := time.Now().Add(20 * time.Millisecond)
+		for time.Now().Before(dl) {
+			st.mu.Lock()
+			d := st.posted[c02RootOfCasc(st, ci)] > 0
+			st.mu.Unlock()
+			if d {
+				time.Sleep(300 * time.Microsecond)
+				st.count("sched: adder held after AddTask until the cascade posted")
+				break
+			}
+			time.Sleep(50 * time.Microsecond)
+		}
+		return
+	}
+	if !strings.HasPrefix(point, "cascade.") {
 		return
 	}
 	u := func(i int) uint64 {
@@ -255,21 +433,35 @@ func c02Hook(point string, args ...interface{}) {
 		return v
 	}
 	var gid uint64
-	if point == "cascade.pop" || (point == "cascade.wait.registered" && st.plan.ecal) {
+	root := u(0)
+	st.mu.Lock()
+	_, known := st.rootOf[root]
+	st.mu.Unlock()
+	if point == "cascade.pop" || st.plan.sched == 4 || !known {
 		gid = c02Goid()
 	}
 	st.mu.Lock()
 	st.hooks++
-	root := u(0)
-	if point == "cascade.wait.registered" && st.plan.ecal {
-		// the root monitor was created inside the addEventAndWait builtin: bind it to the cascade
-		if ci, ok := st.goCasc[gid]; ok {
-			st.rootOf[root] = ci
-			st.dense[root] = 0
-			st.nextID[ci] = 1
+	if !known {
+		// a root monitor created inside the engine / a builtin: the goroutine announced the unit
+		// (x.c02expect / nil-monitor AddEvent), or it is the goroutine evaluating an outer addEventAndWait
+		if un, ok := st.expect[gid]; ok {
+			st.bind(root, un)
+			delete(st.expect, gid)
+		} else if un, ok := st.goCasc[gid]; ok && point == "cascade.wait.registered" {
+			if _, taken := st.nextID[un]; !taken {
+				st.bind(root, un)
+			}
 		}
 	}
-	park := false
+	const (
+		actNone = iota
+		actParkSetErrors
+		actHoldLock
+		actHoldZeroSeer
+		actHoldAfterUnlock
+	)
+	act := actNone
 	switch point {
 	case "cascade.child":
 		if ci, ok := st.rootOf[root]; ok {
@@ -279,6 +471,10 @@ func c02Hook(point string, args ...interface{}) {
 		st.rec(root, fmt.Sprintf("C%d.%d.%v", st.id(u(2)), st.id(u(1)), args[3]))
 	case "cascade.push":
 		st.rec(root, fmt.Sprintf("A%d.%d", st.id(u(1)), c02EventNode(args[2])))
+	case "cascade.handler.registered":
+		st.rec(root, "J")
+	case "cascade.added":
+		st.rec(root, fmt.Sprintf("K%d", st.id(u(1))))
 	case "cascade.pop":
 		w, ok := st.goIdx[gid]
 		if !ok {
@@ -292,45 +488,83 @@ func c02Hook(point string, args ...interface{}) {
 		st.rec(root, fmt.Sprintf("N%d.%v", st.id(u(1)), args[2]))
 	case "cascade.seterrors":
 		st.rec(root, fmt.Sprintf("T%d", st.id(u(1))))
-		if st.plan.directed && !st.parked {
+		if st.has(1) && !st.parked {
 			st.parked = true
-			park = true
+			act = actParkSetErrors
 		}
 	case "cascade.handled":
 		st.rec(root, fmt.Sprintf("H%d", st.id(u(1))))
 	case "cascade.finished.locked":
 		st.rec(root, fmt.Sprintf("F%d.%v.%d", st.id(u(1)), args[2], c02EventNode(args[3])))
+		if unf, _ := args[2].(int); st.has(3) && unf == 1 && st.holds[root] < 2 {
+			st.holds[root]++
+			act = actHoldLock
+		}
 	case "cascade.finished.unlocked":
 		b := 0
 		if v, _ := args[2].(bool); v {
 			b = 1
 		}
 		st.rec(root, fmt.Sprintf("U%d.%d", st.id(u(1)), b))
+		if st.has(3) {
+			if b == 1 {
+				act = actHoldZeroSeer
+			} else if st.rng.Intn(3) == 0 {
+				act = actHoldAfterUnlock
+			}
+		}
 	case "cascade.post":
+		st.posted[root]++
 		st.rec(root, "P")
 	case "cascade.queue.drop":
 		st.rec(root, "D")
 	case "cascade.obs.queue":
+		st.obsRun[root]++
 		st.rec(root, "Oq")
 	case "cascade.obs.wait":
+		st.obsRun[root]++
 		st.rec(root, "Ow")
 	case "cascade.obs.handler":
+		st.obsRun[root]++
 		st.rec(root, "Oh")
 	case "cascade.wait.registered":
 		st.rec(root, "W")
 	}
 	x := st.rng.Intn(100)
 	obs0 := st.obsDone
+	pct := time.Duration(0)
+	if st.plan.sched == 4 {
+		// PCT: rank of this goroutine's priority among the goroutines seen so far
+		st.step++
+		if _, ok := st.prio[gid]; !ok {
+			st.prio[gid] = 1000 + st.rng.Intn(1000)
+		}
+		for _, cp := range st.change {
+			if cp == st.step {
+				st.low--
+				st.prio[gid] = st.low
+			}
+		}
+		rank := 0
+		for _, p := range st.prio {
+			if p > st.prio[gid] {
+				rank++
+			}
+		}
+		pct = time.Duration(rank) * 25 * time.Microsecond
+	}
 	st.mu.Unlock()
-	if park {
-		// directed schedule: hold this failing task between SetErrors and Finish until the error
-		// observer of another task has called AllErrors (or nothing of the kind happens)
+	switch act {
+	case actParkSetErrors:
+		// hold this failing task between SetErrors and Finish until the error observer of another
+		// task has called AllErrors (or nothing of the kind happens)
 		dl := time.Now().Add(20 * time.Millisecond)
 		for time.Now().Before(dl) {
 			st.mu.Lock()
 			d := st.obsDone > obs0
 			st.mu.Unlock()
 			if d {
+				st.count("sched: failing task held between SetErrors and Finish until another AllErrors call")
 				break
 			}
 			time.Sleep(50 * time.Microsecond)
@@ -338,6 +572,24 @@ func c02Hook(point string, args ...interface{}) {
 		st.mu.Lock()
 		st.parked = false
 		st.mu.Unlock()
+		return
+	case actHoldLock:
+		st.count("sched: finisher held inside the root lock with one monitor outstanding (2 ms)")
+		time.Sleep(2 * time.Millisecond)
+		return
+	case actHoldZeroSeer:
+		st.count("sched: zero-seer held before PostEvent")
+		time.Sleep(500 * time.Microsecond)
+		return
+	case actHoldAfterUnlock:
+		st.count("sched: non-last finisher held after Unlock")
+		time.Sleep(300 * time.Microsecond)
+		return
+	}
+	if st.plan.sched == 4 {
+		if pct > 0 {
+			time.Sleep(pct)
+		}
 		return
 	}
 	switch {
@@ -354,7 +606,7 @@ func c02Hook(point string, args ...interface{}) {
 // c02Await waits for a cascade's wait to return. "Stuck" is decided from the absence of progress
 // (hook events, action completions) over 10 s of observed time, not from a wall-clock limit: polls
 // that come late (the whole process was not scheduled) do not count.
-func c02Await(st *c02State, done chan struct{}) bool {
+func c02Await(st *c02State, ci int, done chan struct{}) bool {
 	progress := func() int64 {
 		st.mu.Lock()
 		defer st.mu.Unlock()
@@ -378,6 +630,15 @@ func c02Await(st *c02State, done chan struct{}) bool {
 			last, idle = p, 0
 		} else if idle++; idle >= 200 {
 			return false
+		} else if idle >= 40 {
+			// the hooks saw this cascade post its finished message and nothing has moved for
+			// 2 s: the notification did not reach the waiter
+			st.mu.Lock()
+			posted := st.posted[c02RootOfCasc(st, ci)] > 0
+			st.mu.Unlock()
+			if posted {
+				return false
+			}
 		}
 	}
 }
@@ -429,491 +690,6 @@ func c02NilEntries(errs []*engine.TaskError) int {
 
 type c02Fin interface{ IsFinished() bool }
 
-func c02Run(payload string) string {
-	plan := c02Parse(payload)
-	st := &c02State{plan: plan, rng: NewRand(plan.seed), rootOf: map[uint64]int{}, dense: map[uint64]int{},
-		nextID: map[int]int{}, goIdx: map[uint64]int{}, trace: map[int][]string{}, nilSeen: map[int]int{},
-		handed: map[int][]engine.Monitor{}, stamps: map[int]map[string]int64{}, goCasc: map[uint64]int{}}
-	if plan.ecal {
-		return c02RunEcal(plan, st)
-	}
-	proc := engine.NewProcessor(plan.workers)
-	proc.SetFailOnFirstErrorInTriggerSequence(plan.failFirst)
-	proc.ThreadPool().TooManyCallback = func() {}
-	var zFired int64
-
-	for ci := range plan.cascs {
-		ci := ci
-		c := &plan.cascs[ci]
-		st.stamps[ci] = map[string]int64{}
-		for ni := range c.nodes {
-			ni := ni
-			n := &c.nodes[ni]
-			kind := fmt.Sprintf("c%dn%d", ci, ni)
-			switch n.kind {
-			case 'z':
-				check(proc.AddRule(&engine.Rule{Name: kind + "z", KindMatch: []string{kind}, ScopeMatch: []string{},
-					StateMatch: map[string]interface{}{"never": "x"}, Priority: 0,
-					Action: func(p engine.Processor, m engine.Monitor, e *engine.Event, tid uint64) error {
-						atomic.AddInt64(&zFired, 1)
-						return nil
-					}}))
-			case 't':
-				for k := range n.rules {
-					k := k
-					rname := fmt.Sprintf("%sr%d", kind, k)
-					check(proc.AddRule(&engine.Rule{Name: rname, KindMatch: []string{kind}, ScopeMatch: []string{},
-						Priority: k,
-						Action: func(p engine.Processor, m engine.Monitor, e *engine.Event, tid uint64) error {
-							for _, ch := range n.children[k] {
-								cm := m.NewChildMonitor(0)
-								st.mu.Lock()
-								st.handed[ci] = append(st.handed[ci], cm)
-								st.mu.Unlock()
-								cname := fmt.Sprintf("c%dn%d", ci, ch)
-								if _, err := p.AddEvent(engine.NewEvent(cname, []string{cname}, nil), cm); err != nil {
-									return fmt.Errorf("AddEvent failed: %v", err)
-								}
-								if st.rng != nil && ch%2 == 1 {
-									runtime.Gosched()
-								}
-							}
-							ok := 1
-							if n.rules[k] == 'x' {
-								ok = 0
-							}
-							st.mu.Lock()
-							st.stamps[ci][fmt.Sprintf("%d.%d", ni, k)] = atomic.AddInt64(&c02Clock, 1)
-							st.rec(m.RootMonitor().ID(), fmt.Sprintf("E%d.%d.%d", st.id(m.ID()), k, ok))
-							st.mu.Unlock()
-							if ok == 0 {
-								return errors.New("E" + rname)
-							}
-							return nil
-						}}))
-				}
-			}
-		}
-	}
-	proc.SetRootMonitorErrorObserver(func(rm *engine.RootMonitor) {
-		errs := rm.AllErrors()
-		nils := c02NilEntries(errs)
-		// keep asking for a short while: other failing tasks of the cascade pass through
-		// SetErrors … Finish meanwhile (this is what makes the window reachable without hooks)
-		for i := 0; i < 300; i++ {
-			if i%8 == 7 {
-				runtime.Gosched()
-			}
-			nils += c02NilEntries(rm.AllErrors())
-		}
-		st.mu.Lock()
-		st.obsDone++
-		if ci, ok := st.rootOf[rm.ID()]; ok {
-			st.nilSeen[ci] += nils
-		}
-		st.rec(rm.ID(), fmt.Sprintf("X%d", len(errs)))
-		st.mu.Unlock()
-	})
-
-	c02Cur.Store(st)
-	defer c02Cur.Store(nil)
-	proc.Start()
-
-	type cres struct {
-		ret      bool
-		retStamp int64
-		handler  int64
-		rm       *engine.RootMonitor
-	}
-	res := make([]*cres, len(plan.cascs))
-	var wg sync.WaitGroup
-	for ci := range plan.cascs {
-		ci := ci
-		c := &plan.cascs[ci]
-		r := &cres{}
-		res[ci] = r
-		rm := proc.NewRootMonitor(nil, nil)
-		r.rm = rm
-		st.mu.Lock()
-		st.rootOf[rm.ID()] = ci
-		st.dense[rm.ID()] = 0
-		st.nextID[ci] = 1
-		st.handed[ci] = append(st.handed[ci], rm)
-		st.mu.Unlock()
-		name := fmt.Sprintf("c%dn0", ci)
-		ev := engine.NewEvent(name, []string{name}, nil)
-		done := make(chan struct{})
-		hdone := make(chan struct{}, 8)
-		rm.SetFinishHandler(func(p engine.Processor) {
-			atomic.AddInt64(&r.handler, 1)
-			hdone <- struct{}{}
-		})
-		wg.Add(1)
-		go func() {
-			defer wg.Done()
-			go func() {
-				if c.mode == 'w' {
-					if _, err := proc.AddEventAndWait(ev, rm); err != nil {
-						return
-					}
-				} else {
-					m, err := proc.AddEvent(ev, rm)
-					if err != nil {
-						return
-					}
-					if m != nil {
-						<-hdone
-					}
-				}
-				r.retStamp = atomic.AddInt64(&c02Clock, 1)
-				if c.mode == 'w' {
-					n := len(rm.AllErrors())
-					st.mu.Lock()
-					st.rec(rm.ID(), fmt.Sprintf("R%d", n))
-					st.mu.Unlock()
-				}
-				close(done)
-			}()
-			r.ret = c02Await(st, done)
-		}()
-	}
-	wg.Wait()
-	allRet := true
-	for _, r := range res {
-		allRet = allRet && r.ret
-	}
-	// results are taken at the moment every wait has returned
-	type snap struct {
-		fin, handed int
-		errs        []string
-		foreign     int
-	}
-	snaps := make([]snap, len(res))
-	for ci, r := range res {
-		if !r.ret {
-			continue
-		}
-		st.mu.Lock()
-		hs := append([]engine.Monitor(nil), st.handed[ci]...)
-		st.mu.Unlock()
-		s := snap{handed: len(hs)}
-		for _, m := range hs {
-			if m.(c02Fin).IsFinished() {
-				s.fin++
-			}
-		}
-		type ent struct{ n, k int; cl string }
-		var es []ent
-		for _, te := range r.rm.AllErrors() {
-			if te == nil || te.Event == nil {
-				es = append(es, ent{-1, -1, "nil"})
-				continue
-			}
-			evn := te.Event.Name()
-			if !strings.HasPrefix(evn, fmt.Sprintf("c%dn", ci)) {
-				s.foreign++
-				continue
-			}
-			node := c02EventNode(te.Event)
-			for rule, err := range te.ErrorMap {
-				k := -1
-				if strings.HasPrefix(rule, evn+"r") {
-					k, _ = strconv.Atoi(rule[len(evn)+1:])
-				}
-				cl := "?"
-				if err != nil && err.Error() == "E"+rule {
-					cl = "e"
-				}
-				es = append(es, ent{node, k, cl})
-			}
-		}
-		sort.Slice(es, func(i, j int) bool {
-			if es[i].n != es[j].n {
-				return es[i].n < es[j].n
-			}
-			return es[i].k < es[j].k
-		})
-		for _, e := range es {
-			s.errs = append(s.errs, fmt.Sprintf("%d.%d%s", e.n, e.k, e.cl))
-		}
-		snaps[ci] = s
-	}
-	if allRet {
-		proc.Finish() // every task that is still running (there should be none) ends before the stamps are read
-	}
-	var out []string
-	for ci, r := range res {
-		if !r.ret {
-			out = append(out, "ret=0")
-			continue
-		}
-		s := snaps[ci]
-		early := 0
-		st.mu.Lock()
-		for _, t := range st.stamps[ci] {
-			if t > r.retStamp {
-				early++
-			}
-		}
-		nl := st.nilSeen[ci]
-		st.mu.Unlock()
-		e := "-"
-		if len(s.errs) > 0 {
-			e = strings.Join(s.errs, ",")
-		}
-		time.Sleep(0)
-		out = append(out, fmt.Sprintf("ret=1 early=%d handler=%d fin=%d/%d errs=%s foreign=%d nil=%d",
-			early, atomic.LoadInt64(&r.handler), s.fin, s.handed, e, s.foreign, nl))
-	}
-	result := strings.Join(out, " ; ")
-	if atomic.LoadInt64(&zFired) > 0 {
-		result += " zfired"
-	}
-	st.mu.Lock()
-	defer st.mu.Unlock()
-	if st.hooks > 0 && allRet {
-		CountRun("traces")
-		var ts []string
-		for ci := range plan.cascs {
-			ts = append(ts, strings.Join(st.trace[ci], ","))
-		}
-		result += " ~ " + strings.Join(ts, " ; ")
-	}
-	if !allRet {
-		c02Stuck(result)
-	}
-	return result
-}
-
-// ---------------------------------------------------------------- the same through ECAL sinks
-
-// c02Stamp is x.c02stamp(ci, ni, k, ok): completion stamp of a sink body (its last statement
-// before an optional raise) — needs the instance state to find the monitor.
-type c02Stamp struct{}
-
-func (c02Stamp) Run(instanceID string, vs parser.Scope, is map[string]interface{}, tid uint64, args []interface{}) (interface{}, error) {
-	st := c02Cur.Load()
-	if st == nil || len(args) != 4 {
-		return nil, nil
-	}
-	n := func(i int) int { f, _ := args[i].(float64); return int(f) }
-	st.mu.Lock()
-	defer st.mu.Unlock()
-	st.stamps[n(0)][fmt.Sprintf("%d.%d", n(1), n(2))] = atomic.AddInt64(&c02Clock, 1)
-	if m, ok := is["monitor"].(engine.Monitor); ok {
-		st.rec(m.RootMonitor().ID(), fmt.Sprintf("E%d.%d.%d", st.id(m.ID()), n(2), n(3)))
-	}
-	return nil, nil
-}
-func (c02Stamp) DocString() (string, error) { return "harness function", nil }
-
-func c02EcalSource(plan *c02Plan) string {
-	var sb strings.Builder
-	for ci := range plan.cascs {
-		c := &plan.cascs[ci]
-		for ni := range c.nodes {
-			n := &c.nodes[ni]
-			kind := fmt.Sprintf("c%dn%d", ci, ni)
-			switch n.kind {
-			case 'z':
-				fmt.Fprintf(&sb, "sink %sz\n kindmatch [\"%s\"],\n statematch {\"never\": \"x\"},\n priority 0\n{\n x.c02stamp(%d, %d, 99, 1)\n}\n", kind, kind, ci, ni)
-			case 't':
-				for k := range n.rules {
-					fmt.Fprintf(&sb, "sink %sr%d\n kindmatch [\"%s\"],\n priority %d\n{\n", kind, k, kind, k)
-					for _, ch := range n.children[k] {
-						fmt.Fprintf(&sb, " addEvent(\"c%dn%d\", \"c%dn%d\", {})\n", ci, ch, ci, ch)
-					}
-					ok := 1
-					if n.rules[k] == 'x' {
-						ok = 0
-					}
-					fmt.Fprintf(&sb, " x.c02stamp(%d, %d, %d, %d)\n", ci, ni, k, ok)
-					if ok == 0 {
-						fmt.Fprintf(&sb, " raise(\"c02\", \"E%sr%d\")\n", kind, k)
-					}
-					sb.WriteString("}\n")
-				}
-			}
-		}
-	}
-	return sb.String()
-}
-
-func c02RunEcal(plan *c02Plan, st *c02State) string {
-	config.Config[config.WorkerCount] = plan.workers
-	erp := interpreter.NewECALRuntimeProvider("c02", nil, &memLog{})
-	erp.Cron.Stop()
-	proc := erp.Processor
-	proc.SetFailOnFirstErrorInTriggerSequence(plan.failFirst)
-	proc.ThreadPool().TooManyCallback = func() {}
-	proc.SetRootMonitorErrorObserver(func(rm *engine.RootMonitor) {
-		errs := rm.AllErrors()
-		nils := c02NilEntries(errs)
-		// keep asking for a short while: other failing tasks of the cascade pass through
-		// SetErrors … Finish meanwhile (this is what makes the window reachable without hooks)
-		for i := 0; i < 300; i++ {
-			if i%8 == 7 {
-				runtime.Gosched()
-			}
-			nils += c02NilEntries(rm.AllErrors())
-		}
-		st.mu.Lock()
-		st.obsDone++
-		if ci, ok := st.rootOf[rm.ID()]; ok {
-			st.nilSeen[ci] += nils
-		}
-		st.rec(rm.ID(), fmt.Sprintf("X%d", len(errs)))
-		st.mu.Unlock()
-	})
-	for ci := range plan.cascs {
-		st.stamps[ci] = map[string]int64{}
-	}
-	vs := newGlobalScope()
-	// a harmless statement in front: a plan without any sink gives an otherwise empty program
-	ast, err := parser.ParseWithRuntime("c02", "c02loaded := 1\n"+c02EcalSource(plan), erp)
-	if err == nil {
-		if err = ast.Runtime.Validate(); err == nil {
-			_, err = ast.Runtime.Eval(vs, make(map[string]interface{}), erp.NewThreadID())
-		}
-	}
-	if err != nil {
-		return "ECAL-SETUP-ERROR " + oneLine(err.Error())
-	}
-	c02Cur.Store(st)
-	defer c02Cur.Store(nil)
-	proc.Start()
-
-	type cres struct {
-		ret      bool
-		retStamp int64
-		val      interface{}
-		err      error
-	}
-	res := make([]*cres, len(plan.cascs))
-	var wg sync.WaitGroup
-	for ci := range plan.cascs {
-		ci := ci
-		r := &cres{}
-		res[ci] = r
-		call, err := parser.ParseWithRuntime("c02call", fmt.Sprintf("addEventAndWait(\"c%dn0\", \"c%dn0\", {})", ci, ci), erp)
-		if err == nil {
-			err = call.Runtime.Validate()
-		}
-		if err != nil {
-			return "ECAL-SETUP-ERROR " + oneLine(err.Error())
-		}
-		done := make(chan struct{})
-		wg.Add(1)
-		go func() {
-			defer wg.Done()
-			go func() {
-				st.mu.Lock()
-				st.goCasc[c02Goid()] = ci
-				st.mu.Unlock()
-				r.val, r.err = call.Runtime.Eval(vs.NewChild(fmt.Sprintf("casc%d", ci)), make(map[string]interface{}), erp.NewThreadID())
-				r.retStamp = atomic.AddInt64(&c02Clock, 1)
-				n := 9999
-				if items, ok := r.val.([]interface{}); ok || r.val == nil {
-					n = len(items)
-				}
-				st.mu.Lock()
-				st.rec(c02RootOfCasc(st, ci), fmt.Sprintf("R%d", n))
-				st.mu.Unlock()
-				close(done)
-			}()
-			r.ret = c02Await(st, done)
-		}()
-	}
-	wg.Wait()
-	allRet := true
-	for _, r := range res {
-		allRet = allRet && r.ret
-	}
-	if allRet {
-		proc.Finish()
-	}
-	var out []string
-	for ci, r := range res {
-		if !r.ret {
-			out = append(out, "ret=0")
-			continue
-		}
-		if r.err != nil {
-			out = append(out, "ret=ERR "+oneLine(r.err.Error()))
-			continue
-		}
-		type ent struct {
-			n, k int
-			cl   string
-		}
-		var es []ent
-		foreign := 0
-		items, _ := r.val.([]interface{})
-		for _, it := range items {
-			im, _ := it.(map[interface{}]interface{})
-			evm, _ := im["event"].(map[interface{}]interface{})
-			evn := fmt.Sprint(evm["name"])
-			if !strings.HasPrefix(evn, fmt.Sprintf("c%dn", ci)) {
-				foreign++
-				continue
-			}
-			node, _ := strconv.Atoi(evn[strings.Index(evn, "n")+1:])
-			em, _ := im["errors"].(map[interface{}]interface{})
-			for rk, rv := range em {
-				rule := fmt.Sprint(rk)
-				k := -1
-				if strings.HasPrefix(rule, evn+"r") {
-					k, _ = strconv.Atoi(rule[len(evn)+1:])
-				}
-				cl := "?"
-				if d, ok := rv.(map[interface{}]interface{}); ok && fmt.Sprint(d["detail"]) == "E"+rule && fmt.Sprint(d["type"]) == "c02" {
-					cl = "e"
-				}
-				es = append(es, ent{node, k, cl})
-			}
-		}
-		sort.Slice(es, func(i, j int) bool {
-			if es[i].n != es[j].n {
-				return es[i].n < es[j].n
-			}
-			return es[i].k < es[j].k
-		})
-		var el []string
-		for _, e := range es {
-			el = append(el, fmt.Sprintf("%d.%d%s", e.n, e.k, e.cl))
-		}
-		e := "-"
-		if len(el) > 0 {
-			e = strings.Join(el, ",")
-		}
-		early := 0
-		st.mu.Lock()
-		for _, t := range st.stamps[ci] {
-			if t > r.retStamp {
-				early++
-			}
-		}
-		nl := st.nilSeen[ci]
-		st.mu.Unlock()
-		out = append(out, fmt.Sprintf("ret=1 early=%d handler=- fin=- errs=%s foreign=%d nil=%d", early, e, foreign, nl))
-	}
-	result := strings.Join(out, " ; ")
-	st.mu.Lock()
-	defer st.mu.Unlock()
-	if st.hooks > 0 && allRet {
-		CountRun("traces")
-		var ts []string
-		for ci := range plan.cascs {
-			ts = append(ts, strings.Join(st.trace[ci], ","))
-		}
-		result += " ~ " + strings.Join(ts, " ; ")
-	}
-	if !allRet {
-		c02Stuck(result)
-	}
-	return result
-}
-
 // c02RootOfCasc finds the go id of the root monitor bound to cascade ci (caller holds st.mu).
 func c02RootOfCasc(st *c02State, ci int) uint64 {
 	for r, c := range st.rootOf {
@@ -928,24 +704,42 @@ func init() {
 	register("C02", &Prop{
 		Timeout:          30 * time.Second,
 		NoRestartOnPanic: false,
+		Tool:             c02Tool,
 		Setup: func() {
+			// keep everything the process writes to stderr (a panic of a worker goroutine: message
+			// and stacks) in a file next to the case files: the parent only sees a short tail
+			if f, err := os.OpenFile(fmt.Sprintf("c02.stderr.%d", os.Getpid()), os.O_CREATE|os.O_WRONLY|os.O_APPEND, 0644); err == nil {
+				if syscall.Dup2(int(f.Fd()), 2) == nil {
+					c02Stderr = f
+				}
+			}
 			verifhook.SetHandler(c02Hook)
 			xPkgOnce.Do(func() { stdlib.AddStdlibPkg("x", "verification harness functions") })
-			check(stdlib.AddStdlibFunc("x", "c02stamp", c02Stamp{}))
+			check(stdlib.AddStdlibFunc("x", "c02stamp", c02XFn{c02FnStamp}))
+			check(stdlib.AddStdlibFunc("x", "c02expect", c02XFn{c02FnExpect}))
+			check(stdlib.AddStdlibFunc("x", "c02result", c02XFn{c02FnResult}))
 		},
 		Gen: func(g *Gen) {
 			ecalMode := false
-			emit := func(workers int, ff bool, directed bool, cs []c02Casc) {
+			flags := ""
+			emit := func(workers int, ff bool, sched int, cs []c02Casc) {
 				var parts []string
 				for i := range cs {
 					parts = append(parts, cs[i].String())
 				}
-				f, d := 0, 0
+				f, d := 0, sched
 				if ff {
 					f = 1
 				}
-				if directed {
-					d = 1
+				// every nested wait occupies a worker while it waits: with all of them waiting at
+				// the same time one more worker must be free (workers <= nesting is a deadlock of
+				// the design, not generated: documented limitation)
+				nestedWaits := 0
+				for _, ps := range parts {
+					nestedWaits += strings.Count(ps+"/", ".n/")
+				}
+				if workers < nestedWaits+1 {
+					workers = nestedWaits + 1
 				}
 				g.Count(fmt.Sprintf("cascades=%d", len(cs)))
 				g.Count(fmt.Sprintf("workers=%d", workers))
@@ -957,7 +751,7 @@ func init() {
 						parts[i] = "w" + parts[i][1:]
 					}
 				}
-				g.Emit(fmt.Sprintf("W%d,F%d,S%d,D%d,M%d %s", workers, f, g.R.Intn(1<<30), d, m, strings.Join(parts, " ")))
+				g.Emit(fmt.Sprintf("W%d,F%d,S%d,D%d,M%d%s %s", workers, f, g.R.Intn(1<<30), d, m, flags, strings.Join(parts, " ")))
 			}
 			lit := func(s string) c02Casc { return c02Parse("W1 " + s).cascs[0] }
 			// corpus: the shapes of the repaired defect (several failing tasks in one cascade, error
@@ -970,9 +764,25 @@ func init() {
 				"w=-.-.t.o/0.0.s.-/0.0.s.-", "w=-.-.t.o/0.0.z.-/0.0.t.x/2.0.s.-",
 			}
 			for _, c := range corpus {
-				for _, w := range []int{1, 2, 4, 16} {
+				for k, w := range []int{1, 2, 4, 16} {
 					g.Count("corpus")
-					emit(w, false, true, []c02Casc{lit(c)})
+					emit(w, false, 1, []c02Casc{lit(c)})
+					emit(w, false, []int{2, 3, 5, 4}[k], []c02Casc{lit(c)})
+				}
+			}
+			// directed schedules around descendantFinished / PostEvent and around AddEvent: siblings
+			// finishing at the same time (the last two finishers), adder held after AddTask
+			for _, c := range []string{
+				"w=-.-.t.o/0.0.t.o/0.0.t.o", "a=-.-.t.o/0.0.t.o/0.0.t.o", "w=-.-.t.o/0.0.t.x/0.0.t.o/0.0.t.x",
+				"w=-.-.t.oo/0.0.t.o/0.1.t.o/1.0.t.o/2.0.t.o", "w=-.-.t.o", "a=-.-.t.o", "a=-.-.t.x", "w=-.-.t.o/0.0.s.-",
+			} {
+				for rep := 0; rep < 3; rep++ {
+					for _, w := range []int{2, 4, 16} {
+						g.Count("corpus directed")
+						emit(w, false, 2, []c02Casc{lit(c)})
+						emit(w, false, 3, []c02Casc{lit(c)})
+						emit(w, rep == 1, 5, []c02Casc{lit(c), lit(c)})
+					}
 				}
 			}
 			// many tasks of one cascade failing at the same time on many workers: the error observers
@@ -980,21 +790,66 @@ func init() {
 			wide := "w=-.-.t.o" + strings.Repeat("/0.0.t.x", 12)
 			for i := 0; i < 60; i++ {
 				g.Count("corpus wide failing cascade")
-				emit(16, false, i%2 == 0, []c02Casc{lit(wide)})
+				emit(16, false, []int{1, 0, 3, 5, 1, 4}[i%6], []c02Casc{lit(wide)})
 			}
+			// nested waits (workers >= depth + 1), detached events, blocking actions, nil monitor, no
+			// handler / no error observer, priorities; through ECAL: scope argument, loop, user function, return
+			for _, c := range []string{
+				"w=-.-.t.o/0.0.t.x.n/1.0.t.x", "w=-.-.t.ox/0.0.t.o.n/1.0.t.x.n/2.0.t.x", "a=-.-.t.X/0.0.t.O.d/1.0.t.x/0.0.t.o.d",
+				"w=-.-.t.OX/0.1.t.x/0.0.t.O/2.0.t.X", "w=-.-.t.xo/0.1.t.o.n/0.0.s.-.d/0.0.s.-.n",
+			} {
+				for k, w := range []int{3, 4, 16} {
+					g.Count("corpus rich")
+					flags = []string{"", ",H0,P1", ",E0"}[k]
+					emit(w, false, []int{0, 5, 4}[k], []c02Casc{lit(c)})
+					emit(w, true, 1, []c02Casc{lit(c), lit(c)})
+				}
+			}
+			flags = ""
 			ecalMode = true
+			for _, c := range []string{
+				"w=-.-.t.o/0.0.t.x.l/0.0.t.x.u/0.0.t.x.d/0.0.t.x", "w=-.-.t.or/0.0.t.r/0.1.t.x.n/2.0.t.r",
+				"w=-.-.t.Ox/0.0.t.o.n/1.0.t.x.l/0.1.t.X.u",
+			} {
+				for _, w := range []int{3, 8} {
+					g.Count("corpus rich")
+					emit(w, false, 0, []c02Casc{lit(c)})
+					emit(w, true, 5, []c02Casc{lit(c)})
+				}
+			}
 			for _, c := range corpus[:2] {
 				g.Count("corpus")
-				emit(4, false, true, []c02Casc{lit(c)})
-				emit(4, true, true, []c02Casc{lit(c), lit(c)})
+				emit(4, false, 1, []c02Casc{lit(c)})
+				emit(4, true, 5, []c02Casc{lit(c), lit(c)})
 			}
 			ecalMode = false
 			for _, w := range []int{2, 8} {
 				g.Count("corpus")
-				emit(w, false, true, []c02Casc{lit(corpus[0]), lit(corpus[1]), lit(corpus[2])})
-				emit(w, true, true, []c02Casc{lit(corpus[1]), lit(corpus[1])})
+				emit(w, false, 1, []c02Casc{lit(corpus[0]), lit(corpus[1]), lit(corpus[2])})
+				emit(w, true, 5, []c02Casc{lit(corpus[1]), lit(corpus[1])})
 			}
-			n := 1000
+			// tiny plans (<= 3 events, <= 2 workers): every one of them is explored exhaustively on the
+			// transition system by the driver; the real code runs each several times under different
+			// schedule modes and the states its traces visit are compared with the explored space
+			tiny := c02TinyPlans()
+			reps := 30
+			if !g.Thorough() {
+				// a seed-dependent sample of 200 plans
+				var pick []string
+				for len(pick) < 200 {
+					pick = append(pick, tiny[g.R.Intn(len(tiny))])
+				}
+				tiny = pick
+			} else {
+				reps = 12
+			}
+			for _, t := range tiny {
+				for r := 0; r < reps; r++ {
+					g.Count("tiny plan runs")
+					g.Emit(fmt.Sprintf("%s,S%d,D%d,M0,T1 %s", t[:strings.Index(t, " ")], g.R.Intn(1<<30), []int{0, 4, 3, 5, 2, 1, 4, 0}[r%8], t[strings.Index(t, " ")+1:]))
+				}
+			}
+			n := 2000
 			if g.Thorough() {
 				n = 12000
 			}
@@ -1012,12 +867,31 @@ func init() {
 					maxNodes = 2 + g.R.Intn(5)
 				}
 				pf := []int{0, 15, 30, 60}[g.R.Intn(4)]
+				ecalMode = i%5 == 4
+				rich := i%3 == 1
+				nested := 2
 				var cs []c02Casc
 				for k := 0; k < nc; k++ {
-					cs = append(cs, c02GenCasc(g.R, maxNodes, pf))
+					cs = append(cs, c02GenCasc(g.R, maxNodes, pf, rich, ecalMode, &nested))
 				}
-				ecalMode = i%5 == 4
-				emit(workers, g.R.Intn(4) == 0, g.R.Intn(3) == 0, cs)
+				if 2-nested >= workers {
+					workers = 3 - nested // every nested wait occupies a worker: one more must be free
+				}
+				flags = ""
+				if rich {
+					g.Count("rich plans (nested/detached/blocking/…)")
+					if g.R.Intn(8) == 0 {
+						flags += ",H0"
+					}
+					if g.R.Intn(8) == 0 {
+						flags += ",E0"
+					}
+					if g.R.Intn(3) == 0 {
+						flags += ",P1"
+					}
+				}
+				emit(workers, g.R.Intn(4) == 0, []int{0, 0, 0, 0, 0, 1, 1, 1, 2, 2, 2, 3, 3, 3, 4, 4, 4, 4, 5, 5}[g.R.Intn(20)], cs)
+				flags = ""
 				ecalMode = false
 			}
 		},
